@@ -117,8 +117,14 @@ func (ci *condIndex) require(c *Ctx, rule, construct, pat string, passWhenTrue b
 // dominatedByEdge: block b is only reachable after taking edge (x -> x.Succs[k]) of an If matching pat with the given truth
 func (ci *condIndex) dominatedByCond(b *ssa.BasicBlock, pat string, truth bool) bool {
 	for ifi, s := range ci.conds {
+		truth := truth
 		if !matchCond(s, pat) {
-			continue
+			// the same test written with the opposite operator: `a != b` false edge is `a == b` true edge
+			if neg := negateCondString(s); neg != "" && matchCond(neg, pat) {
+				truth = !truth
+			} else {
+				continue
+			}
 		}
 		x := ifi.Block()
 		succ := x.Succs[1]
@@ -135,6 +141,19 @@ func (ci *condIndex) dominatedByCond(b *ssa.BasicBlock, pat string, truth bool) 
 		}
 	}
 	return false
+}
+
+// negateCondString: the canonical string of the negated comparison ("" if the top operator is not a comparison)
+func negateCondString(s string) string {
+	for a, b := range map[string]string{"eq(": "ne(", "ne(": "eq(", "lt(": "ge(", "ge(": "lt(", "gt(": "le(", "le(": "gt("} {
+		if strings.HasPrefix(s, a) {
+			return b + strings.TrimPrefix(s, a)
+		}
+	}
+	if strings.HasPrefix(s, "not(") && strings.HasSuffix(s, ")") {
+		return strings.TrimSuffix(strings.TrimPrefix(s, "not("), ")")
+	}
+	return ""
 }
 
 func allParamNames(f *ssa.Function) map[ssa.Value]string {
